@@ -615,11 +615,12 @@ def closeOwnedOK (envOpen : Fd → Bool) (os : List Obs) : Bool :=
 
 /-- "exactly once" on its own, independent of the ledger: netpoll never closes a number again unless it was
 given that number again in between -/
-def onceOK : (Fd → Bool) → List Obs → Bool
-  | _, [] => true
-  | cl, .npOpen fd :: os => onceOK (upd cl fd false) os
-  | cl, .npClose fd :: os => !cl fd && onceOK (upd cl fd true) os
-  | cl, _ :: os => onceOK cl os
+def onceStep (st : (Fd → Bool) × Bool) : Obs → (Fd → Bool) × Bool
+  | .npOpen fd => (upd st.1 fd false, st.2)
+  | .npClose fd => (upd st.1 fd true, st.2 && !st.1 fd)
+  | _ => st
+
+def onceOK (os : List Obs) : Bool := (os.foldl onceStep (fun _ => false, true)).2
 
 def Obs.fd : Obs → Fd
   | .npOpen fd | .npClose fd | .npRel fd | .envOpen fd | .envClose fd => fd
@@ -632,5 +633,35 @@ def noneLeftOK (envOpen : Fd → Bool) (os : List Obs) : Bool := (leftOpen envOp
 
 /-- observable trace of a global state, oldest first -/
 def G.obs (g : G) : List Obs := g.trace.reverse.filterMap Ev.obs
+
+/-! ## which close sites the lifecycles reach (for the tie with the extracted site list) -/
+
+/-- sites passed on any path of a program, exploring both outcomes of every choice and letting the kernel hand
+out 3, 4, 5, ...; `d` bounds the number of effects per path.  The result is a bit set indexed by `Site.ord`
+(accumulator `acc`). -/
+def sitesOf : Nat → Fd → M Unit → Nat → Nat
+  | 0, _, _, acc => acc
+  | _+1, _, .ret _, acc => acc
+  | d+1, n, .opn _ k, acc => sitesOf d (n+1) (k n) acc
+  | d+1, n, .adopt _ _ k, acc => sitesOf d n k acc
+  | d+1, n, .rel _ _ k, acc => sitesOf d n k acc
+  | d+1, n, .cls _ _ s k, acc => sitesOf d n k (acc ||| (1 <<< s.ord))
+  | d+1, n, .at s k, acc => sitesOf d n k (acc ||| (1 <<< s.ord))
+  | d+1, n, .choose _ k, acc => sitesOf d n (k false) (sitesOf d n (k true) acc)
+
+/-- every site of the enumeration in source order -/
+def Site.all : List Site :=
+  [.finalizer_netfdClose, .listener_Close_rawfd, .listener_Close_file, .listener_Close_ln, .netFD_Close, .socket_sockopts,
+   .socket_dial_netfdClose, .dialTCP_retry_connClose, .server_Close_ln, .server_Close_conn, .openPoll_eventfd_epfd,
+   .openPoll_ctl_wfd, .openPoll_ctl_epfd, .handler_exit_wfd, .handler_exit_epfd, .sysSocket_setNonblock]
+
+/-- one representative of every kind of lifecycle (fuel ≤ 1: at most one optional extra action) -/
+def Kind.representatives : List Kind :=
+  [.dialTCP 0, .dialUnix 0, .accepted 1, .fdConn 100 0, .createListener 1, .convertListener 100 1, .poller 1]
+
+/-- the close sites reached by the lifecycles of the (fixed) code, in source order -/
+def coveredSites : List Site :=
+  let seen := Kind.representatives.foldl (fun acc k => sitesOf 64 3 k.prog acc) 0
+  Site.all.filter (fun s => seen.testBit s.ord)
 
 end Netpoll.Fd
